@@ -35,6 +35,17 @@ func MapToCurve2(u fptower.E4) G2Affine {
 	c3.B1.A0.SetString("7207770078990411004130237352587865513334954456592365258287987262730492706089979112564450405406")
 	c3.B1.A1.SetString("11314632945591044023254019576500732396578160594635551958097682961894415495755352199773541527735")
 
+	// c4 = -4.g(Z) / (3.Z² + 4.A) with A = 0 (the constant was never set, so the third candidate x3 was the constant Z)
+	{
+		var den fptower.E4
+		c4.Square(&z).Mul(&c4, &z).Add(&c4, &bTwistCurveCoeff)
+		c4.Double(&c4).Double(&c4).Neg(&c4)
+		den.Square(&z)
+		c3z := den
+		den.Double(&den).Add(&den, &c3z)
+		c4.Div(&c4, &den)
+	}
+
 	var tv1, tv2, tv3, tv4, one, x1, gx1, x2, gx2, x3, x, gx, y fptower.E4
 	one.SetOne()
 	tv1.Square(&u).Mul(&tv1, &c1)
